@@ -272,6 +272,11 @@ def dist_logpdf(name, v, params):
     if name == "flip":
         (p,) = params
         return float(math.log(p) if v else math.log1p(-p))
+    if name == "flipv":
+        (p,) = params
+        p = np.asarray(p, dtype=np.float64)
+        v = np.asarray(v, dtype=bool)
+        return float(np.sum(np.where(v, np.log(p), np.log1p(-p))))
     if name == "bernoulli":
         (logit,) = params
         # log sigmoid(+-logit)
@@ -317,6 +322,10 @@ def dist_support(name, params):
     """Finite support of a discrete leaf (None if infinite / continuous)."""
     if name == "flip":
         return [False, True]
+    if name == "flipv":
+        import itertools
+
+        return [tuple(c) for c in itertools.product([False, True], repeat=len(params[0]))]
     if name == "bernoulli":
         return [0, 1]
     if name == "categorical":
@@ -338,13 +347,16 @@ DIST_SIG = {
 }
 
 CONTINUOUS = ("normal", "uniform", "exponential", "beta", "gamma", "normalv")
-DISCRETE_FINITE = ("flip", "bernoulli", "categorical")
+DISCRETE_FINITE = ("flip", "bernoulli", "categorical", "flipv")
 
 
 def dist_sig(node):
     d = node["d"]
     if d == "categorical":
         return [["V", node["n"], ["F", "real"]]], ["I", node["n"]]
+    if d == "flipv":
+        n = node["n"]
+        return [["V", n, ["F", "prob"]]], ["V", n, ["B"]]
     if d == "normalv":
         n = node["n"]
         return (
@@ -371,6 +383,8 @@ def support_value(rng, node):
         return round(rng.uniform(0.2, 2.5), 2)
     if d == "flip":
         return rng.random() < 0.5
+    if d == "flipv":
+        return [rng.random() < 0.5 for _ in range(node["n"])]
     if d == "bernoulli":
         return rng.randrange(2)
     if d == "categorical":
